@@ -100,6 +100,12 @@ Fixpoint keys_of (l : list (string * string)) (seen : list string) : list string
 
 (* ------------------------------------------------------------------ the logical request and what the entry points receive *)
 
+(** How the deployment's Envoy conveys the request body to the ext_authz service
+    (with_request_body.pack_as_bytes): in the string field [body] (Envoy's default), in the bytes field
+    [raw_body], or — as heimdall's own gRPC tests build the request — in both.  Not part of the logical
+    request proper; carried along so that every statement is about every conveyance. *)
+Inductive packing := PackBody | PackRaw | PackBoth.
+
 Record lreq := {
   l_method : string;
   l_tls : bool;                       (* scheme https / http *)
@@ -108,7 +114,8 @@ Record lreq := {
   l_query : string;                   (* raw query, "" when absent *)
   l_hdrs : list (string * string);    (* header lines in order: name as sent (any casing), value; no Host line *)
   l_body : string;
-  l_peer : string                     (* address of the directly connected client *)
+  l_peer : string;                    (* address of the directly connected client *)
+  l_pack : packing                    (* Envoy only: which CheckRequest field carries the body *)
 }.
 
 Definition scheme_of (L : lreq) : string := if l_tls L then "https" else "http".
@@ -144,12 +151,15 @@ Definition envoy_wire_hdrs (L : lreq) : list (string * string) := fold_left envo
 (** the CheckRequest attributes heimdall reads *)
 Record ereq := {
   e_method : string; e_scheme : string; e_host : string; e_path : string; e_query : string;
-  e_hdrs : list (string * string); e_body : string; e_xff : list string
+  e_hdrs : list (string * string); e_body : string; e_rawbody : string; e_xff : list string
 }.
 
 Definition mk_envoy (L : lreq) : ereq :=
   {| e_method := l_method L; e_scheme := scheme_of L; e_host := l_host L; e_path := l_rawpath L;
-     e_query := l_query L; e_hdrs := envoy_wire_hdrs L; e_body := l_body L; e_xff := [l_peer L] |}.
+     e_query := l_query L; e_hdrs := envoy_wire_hdrs L;
+     e_body := match l_pack L with PackRaw => "" | _ => l_body L end;
+     e_rawbody := match l_pack L with PackBody => "" | _ => l_body L end;
+     e_xff := [l_peer L] |}.
 
 (** grpcv3 canonicalizeHeaders *)
 Definition canonicalize_headers (m : list (string * string)) : list (string * string) :=
@@ -184,29 +194,32 @@ Record fixes := {
   fx_F3 : bool;   (* fix: a5ef279 (fixes/C13-F3.diff): decision and proxy hand all values of a pipeline header over *)
   fx_F4 : bool;   (* fix: ae6db4f (fixes/C13-F4.diff): decoded Path and RawPath in the Envoy context *)
   fx_F6 : bool;   (* fix: 06faa19 (fixes/C13-F6.diff): grpcv3 Header("Host") gives the request host *)
-  fx_F7 : bool    (* fix: 19923cd (fixes/C13-F7.diff): grpcv3 Body() of an empty body is "" *)
+  fx_F7 : bool;   (* fix: 19923cd (fixes/C13-F7.diff): grpcv3 Body() of an empty body is "" *)
+  fx_F9 : bool    (* candidate fixes/C13-F9.diff: grpcv3 falls back to the string field [body] when [raw_body] is empty *)
 }.
 
 Definition pinned : fixes :=
-  {| fx_F1 := false; fx_F2 := false; fx_F3 := false; fx_F4 := false; fx_F6 := false; fx_F7 := false |}.
+  {| fx_F1 := false; fx_F2 := false; fx_F3 := false; fx_F4 := false; fx_F6 := false; fx_F7 := false; fx_F9 := false |}.
 Definition all_fixed : fixes :=
-  {| fx_F1 := true; fx_F2 := true; fx_F3 := true; fx_F4 := true; fx_F6 := true; fx_F7 := true |}.
+  {| fx_F1 := true; fx_F2 := true; fx_F3 := true; fx_F4 := true; fx_F6 := true; fx_F7 := true; fx_F9 := true |}.
 Definition set_F1 (b : bool) (f : fixes) : fixes :=
-  {| fx_F1 := b; fx_F2 := fx_F2 f; fx_F3 := fx_F3 f; fx_F4 := fx_F4 f; fx_F6 := fx_F6 f; fx_F7 := fx_F7 f |}.
+  {| fx_F1 := b; fx_F2 := fx_F2 f; fx_F3 := fx_F3 f; fx_F4 := fx_F4 f; fx_F6 := fx_F6 f; fx_F7 := fx_F7 f; fx_F9 := fx_F9 f |}.
 Definition set_F2 (b : bool) (f : fixes) : fixes :=
-  {| fx_F1 := fx_F1 f; fx_F2 := b; fx_F3 := fx_F3 f; fx_F4 := fx_F4 f; fx_F6 := fx_F6 f; fx_F7 := fx_F7 f |}.
+  {| fx_F1 := fx_F1 f; fx_F2 := b; fx_F3 := fx_F3 f; fx_F4 := fx_F4 f; fx_F6 := fx_F6 f; fx_F7 := fx_F7 f; fx_F9 := fx_F9 f |}.
 Definition set_F3 (b : bool) (f : fixes) : fixes :=
-  {| fx_F1 := fx_F1 f; fx_F2 := fx_F2 f; fx_F3 := b; fx_F4 := fx_F4 f; fx_F6 := fx_F6 f; fx_F7 := fx_F7 f |}.
+  {| fx_F1 := fx_F1 f; fx_F2 := fx_F2 f; fx_F3 := b; fx_F4 := fx_F4 f; fx_F6 := fx_F6 f; fx_F7 := fx_F7 f; fx_F9 := fx_F9 f |}.
 Definition set_F4 (b : bool) (f : fixes) : fixes :=
-  {| fx_F1 := fx_F1 f; fx_F2 := fx_F2 f; fx_F3 := fx_F3 f; fx_F4 := b; fx_F6 := fx_F6 f; fx_F7 := fx_F7 f |}.
+  {| fx_F1 := fx_F1 f; fx_F2 := fx_F2 f; fx_F3 := fx_F3 f; fx_F4 := b; fx_F6 := fx_F6 f; fx_F7 := fx_F7 f; fx_F9 := fx_F9 f |}.
 Definition set_F6 (b : bool) (f : fixes) : fixes :=
-  {| fx_F1 := fx_F1 f; fx_F2 := fx_F2 f; fx_F3 := fx_F3 f; fx_F4 := fx_F4 f; fx_F6 := b; fx_F7 := fx_F7 f |}.
+  {| fx_F1 := fx_F1 f; fx_F2 := fx_F2 f; fx_F3 := fx_F3 f; fx_F4 := fx_F4 f; fx_F6 := b; fx_F7 := fx_F7 f; fx_F9 := fx_F9 f |}.
 Definition set_F7 (b : bool) (f : fixes) : fixes :=
-  {| fx_F1 := fx_F1 f; fx_F2 := fx_F2 f; fx_F3 := fx_F3 f; fx_F4 := fx_F4 f; fx_F6 := fx_F6 f; fx_F7 := b |}.
+  {| fx_F1 := fx_F1 f; fx_F2 := fx_F2 f; fx_F3 := fx_F3 f; fx_F4 := fx_F4 f; fx_F6 := fx_F6 f; fx_F7 := b; fx_F9 := fx_F9 f |}.
+Definition set_F9 (b : bool) (f : fixes) : fixes :=
+  {| fx_F1 := fx_F1 f; fx_F2 := fx_F2 f; fx_F3 := fx_F3 f; fx_F4 := fx_F4 f; fx_F6 := fx_F6 f; fx_F7 := fx_F7 f; fx_F9 := b |}.
 
-(** /repo today (abe584c): all six repairs are in — F1 b2286d8, F2 7c3e9fc, F3 a5ef279, F4 ae6db4f,
-    F6 06faa19, F7 19923cd *)
-Definition repo_now : fixes := all_fixed.
+(** /repo today (b37641c): the six committed repairs are in — F1 b2286d8, F2 7c3e9fc, F3 a5ef279,
+    F4 ae6db4f, F6 06faa19, F7 19923cd; C13-F9 is open *)
+Definition repo_now : fixes := set_F9 false all_fixed.
 
 (** grpcv3.NewRequestContext + Request().  [fixed_F4 = false]: the pinned code puts the path as received
     (escaped) into URL.Path and leaves RawPath empty (finding C13-F4); [fixed_F4 = true]: the candidate
@@ -369,12 +382,18 @@ Section Oracles.
     let key := if fx_F2 fx then canon name else name in
     if fx_F6 fx && String.eqb key "Host" then host else assoc key m.
 
+  (** grpcv3 reads the bytes field [raw_body] only; the string field [body] is stored and never used
+      (finding C13-F9; the candidate repair falls back to it when [raw_body] is empty) *)
+  Definition envoy_raw_body (fx : fixes) (E : ereq) : string :=
+    if fx_F9 fx && String.eqb (e_rawbody E) "" then e_body E else e_rawbody E.
+
   Definition acc_envoy (fx : fixes) (E : ereq) : accessors :=
     let m := canonicalize_headers (e_hdrs E) in
     {| a_header := header_envoy fx m (e_host E); a_headers := m;
        a_cookie := envoy_cookie m;
-       a_body := if fx_F7 fx && String.eqb (e_body E) "" then VJson json_empty_string
-                 else decode (header_envoy fx m (e_host E) "Content-Type") (e_body E) |}.
+       a_body := let raw := envoy_raw_body fx E in
+                 if fx_F7 fx && String.eqb raw "" then VJson json_empty_string
+                 else decode (header_envoy fx m (e_host E) "Content-Type") raw |}.
 
   (* ---------------------------------------------------------------- queries *)
 
@@ -446,16 +465,41 @@ Section Oracles.
   (** rules.containsEncodedSlash (since fix: a779db8 both spellings count) *)
   Definition contains_encoded_slash (p : string) : bool := GoUrl.contains "%2F" p || GoUrl.contains "%2f" p.
 
-  (** rules.unescape: both spellings of an encoded slash are protected by a placeholder (a
-      strings.Replacer with the two patterns; neither pattern nor the placeholder can overlap the other,
-      so two passes give the same), the rest is decoded, the placeholder becomes "%2F" *)
-  Definition escaped_slash_marker := "$$$escaped-slash$$$".
+  (** strings.Split(s, sep) for a non-empty separator: first piece and the remaining pieces.
+      [skip] counts the bytes of a matched separator still to be dropped. *)
+  Fixpoint split_str_from (sep : string) (skip : nat) (s : string) : string * list string :=
+    match s with
+    | EmptyString => (EmptyString, [])
+    | String c r =>
+      match skip with
+      | S k => split_str_from sep k r
+      | O =>
+        if GoUrl.has_prefix sep s
+        then (EmptyString, let '(h, t) := split_str_from sep (Nat.pred (String.length sep)) r in h :: t)
+        else let '(h, t) := split_str_from sep O r in (String c h, t)
+      end
+    end.
+
+  Definition split_str (sep s : string) : list string := let '(h, t) := split_str_from sep O s in h :: t.
+
+  Fixpoint all_some (l : list (option string)) : option (list string) :=
+    match l with
+    | [] => Some []
+    | Some x :: r => option_map (cons x) (all_some r)
+    | None :: _ => None
+    end.
+
+  (** rules.unescape / unescapeExceptSlashes (since fix: 6d0a3af): unless encoded slashes are to be
+      decoded, the lower-case spelling %2f is turned into %2F, the value is cut at the encoded slashes,
+      the pieces are decoded one by one (an invalid escape anywhere gives ""), and they are joined with
+      %2F again — no place-holder text *)
   Definition unescape_capture (s : slashes) (v : string) : string :=
     match s with
     | SOn => GoUrl.unescape_or_empty v
-    | _ => GoUrl.replace_all escaped_slash_marker "%2F"
-             (GoUrl.unescape_or_empty
-                (GoUrl.replace_all "%2f" escaped_slash_marker (GoUrl.replace_all "%2F" escaped_slash_marker v)))
+    | _ => match all_some (map GoUrl.unescape (split_str "%2F" (GoUrl.replace_all "%2f" "%2F" v))) with
+           | Some parts => join "%2F" parts
+           | None => ""
+           end
     end.
 
   (** what rule lookup reads of the view (repository.FindRule: RawPath if set, else Path; the route
